@@ -125,7 +125,8 @@ def main(ctx):
                 err_samples.append((cls, {"command": cmdline, "exit": ex, "stdout": so.decode("utf8", "replace")[:160]}))
             # ---- implementation-level oracle
             if verdict is None or verdict.startswith("bad") or verdict == "missing":
-                what = "%s: `%s` -> exit %s, stdout %r: %s" % (c.kind, cmdline, ex, so[:120], verdict)
+                shown = strip_log(so) if cls == "ok" else so
+                what = "%s: `%s` -> exit %s, stdout%s %r: %s" % (c.kind, cmdline, ex, " (log lines removed)" if shown != so else "", shown[:160], verdict)
                 kf = match_known(c, verdict or "")
                 if kf:
                     if kf not in ctx.known:
@@ -206,3 +207,38 @@ def main(ctx):
     ctx.assumptions += ["clap rejects what it documents (the tokenizer of clap 2 is not modelled; Model.Cli.parse_solve covers the `-o value` token form only)",
                         "file contents -> framework is the readers' business (C13); Model.Cli takes the framework the reader returns"]
     ctx.finish()
+
+
+def replay(ctx, path):
+    """bin/check C05 --replay FILE: re-runs the invocation of a replay file (one case) against the
+    tools built from the current tree and judges it with the driver."""
+    bins = build_bins(ctx)
+    d = build_driver(ctx)
+    if not bins or not d:
+        print("build failed")
+        sys.exit(2)
+    case_path = os.path.join(ctx.work, "replay.cases")
+    open(case_path, "w").write("".join(l for l in open(path) if not l.startswith(("WHY ", "DRIVER "))))
+    cs = parse_cases(case_path)
+    if not cs:
+        print("no case in %s" % path)
+        sys.exit(2)
+    c = cs[0]
+    rd = os.path.join(ctx.work, "replay-files")
+    os.makedirs(os.path.join(rd, "somedir"), exist_ok=True)
+    open(os.path.join(rd, "good.af"), "w").write("p af 3\n1 2\n2 3\n")
+    open(os.path.join(rd, "good.apx"), "w").write("arg(a).\narg(b).\narg(c).\natt(a,b).\natt(b,c).\n")
+    argv = [hx(t) for t in (field(c.ins, "argv") or "").split()]
+    fb = field(c.ins, "file")
+    for i, t in enumerate(argv):
+        if t == b"-f" and i + 1 < len(argv) and fb is not None and argv[i + 1] not in (b"good.af", b"good.apx", b""):
+            open(os.path.join(rd, os.path.basename(argv[i + 1].decode("utf8", "replace"))), "wb").write(hx(fb))
+    tool = bins[1] if c.kind.split("/")[1] == "wrapper" else bins[0]
+    p = subprocess.run([tool.encode()] + argv, cwd=rd, stdout=subprocess.PIPE, stderr=subprocess.PIPE, timeout=60)
+    print("recorded : %s ; %s" % (field(c.outs, "exit"), hx(field(c.outs, "stdout") or "-")))
+    print("now      : exit %d ; %r" % (p.returncode, p.stdout))
+    now = Case(c.id, c.kind)
+    now.raw = [l for l in c.raw if not l.startswith("OUT ")] + ["OUT exit %d\n" % p.returncode, "OUT stdout %s\n" % (p.stdout.hex() or "-")]
+    open(case_path, "w").write(now.text())
+    rc, out = sh("%s cli %s --cli-max-n 9" % (d, case_path), timeout=300)
+    print("driver   :\n" + out)
